@@ -255,6 +255,15 @@ func (e *bgvEnv) subjects() (subs []*subject) {
 				Make:    mk, Copy: func(o any) any { return o.(*bgv.Evaluator).WithKey(e.evk2) }, Work: e.evalWork,
 				Ref: func() outs { return e.evalWork(bgv.NewEvaluator(e.p, e.evk2, inv)) }})
 		}
+		// chains: what the first constructor set (keys, mode) survives the second one
+		subs = append(subs, &subject{Ctor: "bgv.Evaluator.ShallowCopy", Cfg: tag + "/" + mode + "/of-WithKey(full->full2)", Safe: true, Scratch: bgvEvalScratch,
+			Make: func() any { return bgv.NewEvaluator(e.p, e.evk, inv).WithKey(e.evk2) },
+			Copy: func(o any) any { return o.(*bgv.Evaluator).ShallowCopy() }, Work: e.evalWork})
+		subs = append(subs, &subject{Ctor: "bgv.Evaluator.WithKey", Cfg: tag + "/" + mode + "/of-ShallowCopy(nil)->full2", Scratch: bgvEvalScratch,
+			Rebound: []string{"*.Evaluator*.EvaluationKeySet", "*.Evaluator*.automorphismIndex"},
+			Make:    func() any { return bgv.NewEvaluator(e.p, nil, inv).ShallowCopy() },
+			Copy:    func(o any) any { return o.(*bgv.Evaluator).WithKey(e.evk2) }, Work: e.evalWork,
+			Ref: func() outs { return e.evalWork(bgv.NewEvaluator(e.p, e.evk2, inv)) }})
 	}
 	return
 }
@@ -517,5 +526,14 @@ func (e *ckksEnv) subjects() (subs []*subject) {
 			Make:    mk, Copy: func(o any) any { return o.(*ckks.Evaluator).WithKey(e.evk2) }, Work: e.evalWork,
 			Ref: func() outs { return e.evalWork(ckks.NewEvaluator(e.p, e.evk2)) }})
 	}
+	// chains
+	subs = append(subs, &subject{Ctor: "ckks.Evaluator.ShallowCopy", Cfg: tag + "/of-WithKey(full->full2)", Safe: true, Scratch: ckksEvalScratch,
+		Make: func() any { return ckks.NewEvaluator(e.p, e.evk).WithKey(e.evk2) },
+		Copy: func(o any) any { return o.(*ckks.Evaluator).ShallowCopy() }, Work: e.evalWork})
+	subs = append(subs, &subject{Ctor: "ckks.Evaluator.WithKey", Cfg: tag + "/of-ShallowCopy(nil)->full2", Scratch: ckksEvalScratch,
+		Rebound: []string{"*.Evaluator*.EvaluationKeySet", "*.Evaluator*.automorphismIndex"},
+		Make:    func() any { return ckks.NewEvaluator(e.p, nil).ShallowCopy() },
+		Copy:    func(o any) any { return o.(*ckks.Evaluator).WithKey(e.evk2) }, Work: e.evalWork,
+		Ref: func() outs { return e.evalWork(ckks.NewEvaluator(e.p, e.evk2)) }})
 	return
 }
